@@ -28,10 +28,10 @@ LEX = (
     "%0", "%a", "^bb0", "^0", "@f", '@"s"', "#a", "!t", "i32", "f32", "index", "0", "1", "-1", "0x", "0xFF", "1.5", "1.e", "1e5",
     '"x"', '"', '"\\', '"\\FF"', "(", ")", "{", "}", "[", "]", "<", ">", ":", "::", ",", "=", "->", "...", "..", "*", "?", "+",
     "-", "x", "²", "é", "loc", "dense<", "dense", "array<", "affine_map<", "unit", "true", "{-#", "#-}", "builtin.module", '"test.op"',
-    "func.func", "attributes", "//", "\n",
+    "func.func", "attributes", "//", "\n", "%d#0", "%d#1", "%d#2", "%p:2", "%p#2", "#foo.bar<", "!foo.ty<", "#foo<bar", '"', "i32,",
 )
 REDUCED = ("%0", "^bb0", "^0", "@f", "#a", "!t", "i32", "0", "0x", "1.e", '"x"', '"', "(", ")", "{", "}", "<", ">", ":", ",", "=",
-           "->", "²", "loc", "dense<", '"test.op"', "\n")
+           "->", "²", "loc", "dense<", '"test.op"', "\n", "%d#1", "%p#2", "#foo.bar<", "-")
 
 CONTEXTS = (
     ("top", "{s}"),
@@ -39,6 +39,11 @@ CONTEXTS = (
     ("type", '"test.op"() : () -> ({s})'),
     ("region", '"test.op"() ({{\n {s} \n}}) : () -> ()'),
     ("operands", '%r = "test.op"({s}) : () -> (i32)'),
+    # operands that refer to ALREADY DEFINED values (%d: one result, %p: two results)
+    ("use-after-def", '%d = "test.op"() : () -> (i32)\n%p:2 = "test.op"() : () -> (i32, i32)\n"test.op"({s}) : (i32) -> ()'),
+    # the input ends right after the tokens (no closing syntax): end-of-file inside an open construct
+    ("attr-dict-open", '"test.op"() {{a = {s}'),
+    ("type-open", '"test.op"() : () -> {s}'),
 )
 
 TOK = re.compile(r'\s+|//[^\n]*|"(?:\\.|[^"\\\n])*"?|[%^@#!][A-Za-z0-9_$.\-]*|[A-Za-z_][A-Za-z0-9_$.]*|0x[0-9a-fA-F]+|'
